@@ -15,7 +15,7 @@ RULE = ('cases = {fast_matvec (python backend), dmrg_hadamard, amen_mv, amen_mm}
         '||D(y)-ref|| <= 10*eps*||ref|| + 1e3*u*S_rep with ref the dense product. distinct = (routine, structure, eps decade, guess, dtype, seed index); non-trivial = non-zero reference.')
 ASSUMPTIONS = ['"a small constant times eps" is fixed a priori as 10*eps', 'C++ backend off here (use_cpp=False); C17 covers it', 'amen_mv/amen_mm are exercised with real dtypes (their inner products are not conjugated)']
 REQUIRED_REACH = ['_dmrg:dmrg_matvec_python', '_dmrg:dmrg_hadamard_python', '_amen:_amen_mm_python', '_amen:amen_mv', '_amen:amen_mm', '_tt_base:TT.fast_matvec']
-REQUIRED_COUNTS = {'routine:fast_matvec': 1, 'routine:dmrg_hadamard': 1, 'routine:amen_mv': 1, 'routine:amen_mm': 1, 'guess:user': 1, 'budget:nswp=1': 1, 'budget:nswp=2': 1, 'order:1': 1, 'order:2': 1, 'executions': 300}
+REQUIRED_COUNTS = {'routine:fast_matvec': 1, 'routine:dmrg_hadamard': 1, 'routine:amen_mv': 1, 'routine:amen_mm': 1, 'guess:user': 1, 'guess:coarse': 10, 'budget:nswp=1': 1, 'budget:nswp=2': 1, 'order:1': 1, 'order:2': 1, 'executions': 300}
 LINE_FUNCS = ['dmrg_matvec_python', 'dmrg_hadamard_python', '_amen_mm_python']
 CASE_TIMEOUT = {'quick': 180, 'thorough': 400}
 MAX_TIMEOUT_FRACTION = 0.0
@@ -69,6 +69,16 @@ def cases(tier, seed):
                     d = len(M)
                     cs.append({'gen': 'prod', 'routine': routine, 'M': M, 'N': N, 'K': [2] * d, 'RA': [1] + [2] * (d - 1) + [1], 'RB': [1] + [2] * (d - 1) + [1], 'vals': vals,
                                'eps': 1e-8, 'guess': guess, 'dtype': 'f64', 'vseed': 12345 + len(cs), 'RG': [1] + [3] * (d - 1) + [1], 'sidx': 0})
+    # directed: user guesses that are COARSE BUT STATIONARY approximations of the product (the exact product truncated at 30%..2%): every local update reproduces
+    # the guess, so only the residual enrichment can reveal what is missing
+    for i in range(48 if not T else 400):
+        routine = ROUTINES[i % 4]
+        d = rng.choice([2, 3, 4])
+        M = [rng.randint(2, 5) for _ in range(d)]
+        N = [rng.randint(2, 5) for _ in range(d)]
+        cs.append({'gen': 'prod', 'routine': routine, 'M': M, 'N': N, 'K': [rng.randint(2, 3) for _ in range(d)], 'RA': [1] + [rng.randint(2, 4) for _ in range(d - 1)] + [1],
+                   'RB': [1] + [rng.randint(2, 4) for _ in range(d - 1)] + [1], 'vals': ['gauss', 'decay'][(i // 4) % 2], 'eps': 10 ** rng.uniform(-10, -4), 'guess': 'coarse',
+                   'coarse_eps': [0.3, 0.1, 0.02][(i // 8) % 3], 'dtype': 'f64', 'vseed': rng.randrange(2 ** 40), 'RG': [1] * (d + 1), 'sidx': 0, 'scale': 1.0})
     # directed: exhausted sweep budget (nswp=1,2): the final-sweep branch of the DMRG/AMEn loops (no enrichment, transposed factor); the accuracy clause is NOT demanded here
     # (the statement is about the default budgets) - only kind/shape/well-formed/finite
     for i in range(24 if not T else 160):
@@ -141,6 +151,24 @@ def run_case(case, ctx):
             guess = mk(case, g, K, case['RG'], M=M, vals='gauss')
         f = (lambda a, b, c: torchtt.amen_mm(a, b, X0=c, eps=eps)) if guess is not None else (lambda a, b: torchtt.amen_mm(a, b, eps=eps))
         ops = (A, x)
+    if case['guess'] == 'coarse':
+        # the harness truncates the exact dense product itself (plain TT-SVD through the library constructor, which C01 decides)
+        shape = [(m, k_) for m, k_ in zip(wantM, wantN)] if wantM is not None else list(wantN)
+        gobj = ctx.lib('TT(dense)', lambda t: torchtt.TT(t, shape, eps=case['coarse_eps']) if wantM is not None else torchtt.TT(t, eps=case['coarse_eps']), ref)
+        if isinstance(gobj, Raised) or not isinstance(gobj, torchtt.TT):
+            ctx.count('coarse_guess_unavailable')
+            return
+        guess = gobj
+        ctx.metric('coarse_guess_rel_error', dn.fro(dn.D(guess) - ref) / max(dn.fro(ref), 1e-300))
+        ctx.count('guess:coarse')
+        if routine == 'fast_matvec':
+            f = lambda a, b, c: a.fast_matvec(b, eps=eps, initial=c, use_cpp=False)
+        elif routine == 'dmrg_hadamard':
+            f = lambda a, b, c: torchtt.dmrg_hadamard(a, b, z0=c, eps=eps)
+        elif routine == 'amen_mv':
+            f = lambda a, b, c: torchtt.amen_mv(a, b, x0=c, eps=eps)
+        else:
+            f = lambda a, b, c: torchtt.amen_mm(a, b, X0=c, eps=eps)
     nswp = case.get('nswp')
     if nswp:
         ctx.count('budget:nswp=%d' % nswp)
